@@ -8,10 +8,13 @@
 package schema
 
 import (
+	"encoding"
+	"encoding/json"
 	"fmt"
 	"reflect"
 	"strconv"
 	"strings"
+	"time"
 
 	"github.com/getkin/kin-openapi/openapi3"
 )
@@ -52,6 +55,37 @@ type ConverterOptions struct {
 var DefaultConverterOptions = ConverterOptions{
 	RefStyle:       RefStyleNested, // Default
 	MaxInlineDepth: 6,
+}
+
+var (
+	timeType          = reflect.TypeOf(time.Time{})
+	rawMessageType    = reflect.TypeOf(json.RawMessage(nil))
+	jsonMarshalerType = reflect.TypeOf((*json.Marshaler)(nil)).Elem()
+	textMarshalerType = reflect.TypeOf((*encoding.TextMarshaler)(nil)).Elem()
+)
+
+// encodedTypeSchema returns the schema of a type whose JSON encoding is not derived from its Go kind:
+// time.Time and []byte are strings, json.RawMessage, interface values and json.Marshaler implementations
+// are arbitrary JSON, encoding.TextMarshaler implementations are strings. It returns nil for all other
+// types. t must not be a pointer type.
+func encodedTypeSchema(t reflect.Type) *openapi3.Schema {
+	switch {
+	case t == timeType:
+		schema := openapi3.NewStringSchema()
+		schema.Format = "date-time"
+		return schema
+	case t == rawMessageType, t.Kind() == reflect.Interface:
+		return &openapi3.Schema{}
+	case t.Implements(jsonMarshalerType) || reflect.PtrTo(t).Implements(jsonMarshalerType):
+		return &openapi3.Schema{}
+	case t.Implements(textMarshalerType) || reflect.PtrTo(t).Implements(textMarshalerType):
+		return openapi3.NewStringSchema()
+	case t.Kind() == reflect.Slice && t.Elem().Kind() == reflect.Uint8:
+		schema := openapi3.NewStringSchema()
+		schema.Format = "byte"
+		return schema
+	}
+	return nil
 }
 
 // Generator manages schema generation with $defs support.
@@ -206,6 +240,9 @@ func (g *Generator) generateFieldSchemaWithRefs(t reflect.Type, field reflect.St
 	for t.Kind() == reflect.Ptr {
 		t = t.Elem()
 	}
+	if schema := encodedTypeSchema(t); schema != nil {
+		return schema
+	}
 
 	switch t.Kind() {
 	case reflect.Struct:
@@ -256,6 +293,9 @@ func (g *Generator) generateTypeSchemaWithRefs(t reflect.Type) *openapi3.Schema 
 	// Dereference pointers.
 	for t.Kind() == reflect.Ptr {
 		t = t.Elem()
+	}
+	if schema := encodedTypeSchema(t); schema != nil {
+		return schema
 	}
 
 	switch t.Kind() {
@@ -365,6 +405,9 @@ func convertTypeWithDepthLimit(t reflect.Type, visited map[reflect.Type]*openapi
 		schema.Description = "Depth limit reached"
 		return schema
 	}
+	if schema := encodedTypeSchema(t); schema != nil {
+		return schema
+	}
 
 	switch t.Kind() {
 	case reflect.Struct:
@@ -468,6 +511,9 @@ func convertReflectTypeToSchemaWithVisited(t reflect.Type, visited map[reflect.T
 	originalType := t
 	for t.Kind() == reflect.Ptr {
 		t = t.Elem()
+	}
+	if schema := encodedTypeSchema(t); schema != nil {
+		return schema
 	}
 
 	// Only check for cycles with struct types, as primitive types should always create new instances
@@ -853,6 +899,9 @@ func (g *NestedRefGenerator) generateSchema(t reflect.Type) *openapi3.Schema {
 	// Dereference pointers
 	for t.Kind() == reflect.Ptr {
 		t = t.Elem()
+	}
+	if schema := encodedTypeSchema(t); schema != nil {
+		return schema
 	}
 
 	// Primitive types: always expand, never use $ref
